@@ -16,6 +16,16 @@ Line-protocol driver for C18 (decimal amount strings <-> 18-decimal integers).
                            a<int> (AddFT), u<int> (SubFT), g (GetFT); one answer token per step:
                            s | a | u:<0|1>:<int|nil> | g:<int|nil>   (NILPANIC if Go would deref nil)
 
+  xfer <int> <hex-string>  service.ChangeAssets, source holding <int>, one target, amount string
+                           -> xfer <ok|fail> <src after> <dst after> <response, blanks as _>
+  stake <u64>              Float64ToBigInt(float64(n))    -> ok <int> | PANIC
+  f64 <bits>               Float64ToBigInt(Float64frombits(bits)) -> ok <int> | nan-panic
+  u64 <u64>                Uint64ToBigInt(n)              -> ok <int>
+  stakearg <int>           ParseUint(BigIntToStrWithoutDot(n),10,0) -> ok <n> | err
+  basen <nat> <base>       BigIntBase10toN(n, base)       -> s <string>   (2 <= base <= 16)
+  calldata <nat>           common.GenerateCallDataBigInt(n) -> s <string>
+  size <hex-string> <d>    bit length of |strToBigInt(s, d)| -> bits <n> | err
+
 Strings travel as hex of their bytes (a byte b is the character with code b; the
 model only ever inspects ASCII). `parse` of a finite amount whose binary exponent
 exceeds `bigLimit` is answered `unmodelled` unless the product with `10^d` must
@@ -51,6 +61,16 @@ def showBF : BF → String
 def tooBig (d : Int) : BF → Bool
   | .fin _ m e =>
     (bitLen m : Int) + e > bigLimit &&
+      (bitLen m : Int) + e + (bitLen (10 ^ d.toNat) : Int) - 1 ≤ maxExp
+  | _ => false
+
+/-- the `size` op evaluates larger results than `parse` (no decimal printing): up to
+    `sizeLimit` bits. -/
+def sizeLimit : Int := 40000000
+
+def sizeTooBig (d : Int) : BF → Bool
+  | .fin _ m e =>
+    (bitLen m : Int) + e > sizeLimit &&
       (bitLen m : Int) + e + (bitLen (10 ^ d.toNat) : Int) - 1 ≤ maxExp
   | _ => false
 
@@ -137,6 +157,65 @@ def step (_ : Unit) (line : String) : Unit × String :=
     match n.toInt? with
     | some n => ((), showRes "err" (evmValue n))
     | none => ((), "bad-op")
+  | ["xfer", n, h] =>
+    match n.toInt?, ofHex? h with
+    | some n, some b =>
+      let s := strOfBytes b
+      let huge : Bool := match parseFloat s with
+        | some t => (match t with
+          | .fin _ m e => (bitLen m : Int) + e > bigLimit
+          | _ => false)
+        | none => false
+      if huge then ((), "unmodelled")
+      else match gameTransfer n s with
+        | none => ((), "NILPANIC")
+        | some (ok, a, b, r) =>
+          ((), "xfer " ++ (if ok then "ok" else "fail") ++ " " ++ showResTok a ++ " " ++ showResTok b ++ " " ++
+            String.ofList (r.map (fun c => if c = ' ' then '_' else c)))
+    | _, _ => ((), "bad-op")
+  | ["stake", n] =>
+    match n.toNat? with
+    | some n => if n < 2 ^ 64 then ((), showRes "err" (stakeToBigInt n)) else ((), "bad-op")
+    | none => ((), "bad-op")
+  | ["f64", b] =>
+    match b.toNat? with
+    | some b => if b < 2 ^ 64 then ((), match float64ToBigInt b with
+        | .ok v => "ok " ++ toString v
+        | _ => "nan-panic") else ((), "bad-op")
+    | none => ((), "bad-op")
+  | ["u64", n] =>
+    match n.toNat? with
+    | some n => if n < 2 ^ 64 then ((), "ok " ++ toString (uint64ToBigInt n)) else ((), "bad-op")
+    | none => ((), "bad-op")
+  | ["stakearg", n] =>
+    match n.toInt? with
+    | some n => ((), match stakeArg n with
+        | some v => "ok " ++ toString v
+        | none => "err")
+    | none => ((), "bad-op")
+  | ["basen", n, b] =>
+    match n.toNat?, b.toNat? with
+    | some n, some b => if 2 ≤ b && b ≤ 16 then ((), showStr (bigIntBase10toN n b)) else ((), "unmodelled")
+    | _, _ => ((), "bad-op")
+  | ["calldata", n] =>
+    match n.toNat? with
+    | some n => ((), showStr (callDataBigInt n))
+    | none => ((), "bad-op")
+  | ["size", h, d] =>
+    match ofHex? h, d.toInt? with
+    | some b, some d =>
+      if okDec d then
+        let s := strOfBytes b
+        if s = [] then ((), "bits 0")
+        else match parseFloat s with
+          | none => ((), "err")
+          | some t =>
+            if sizeTooBig d t then ((), "unmodelled")
+            else match strToBigInt s d with
+              | .ok v => ((), "bits " ++ toString (bitLen v.natAbs))
+              | _ => ((), "err")
+      else ((), "unmodelled")
+    | _, _ => ((), "bad-op")
   | "ft" :: d :: steps =>
     match d.toInt? with
     | some d =>
